@@ -41,6 +41,18 @@ func checkC10race(ctx *core.Ctx, rep *core.Report) {
 			work = append(work, &all[i])
 		}
 	}
+	// … and the wide-serial variants of the CRLs / OCSP responses (entry serials that do not fit a machine word)
+	var wide []seeds.Seed
+	for i := range all {
+		if all[i].Kind != seeds.Cert {
+			if w := wideSerials(all[i].Kind, all[i].DER); w != nil {
+				wide = append(wide, seeds.Seed{Name: all[i].Name + "+wide-serials", Kind: all[i].Kind, DER: w})
+			}
+		}
+	}
+	for i := range wide {
+		work = append(work, &wide[i])
+	}
 	const G = 16
 	var wg sync.WaitGroup
 	var mu sync.Mutex
